@@ -4,7 +4,8 @@
 (* LEVELS on and around every documented domain boundary; the harness maps *)
 (* levels to concrete values (gamma: neg=-0.1 zero=0 mid=0.5 one=1         *)
 (* above=1.1; epsilon: neg=-1 zero=0 tiny=1e-12 small=1e-3 half=0.5 two=2  *)
-(* twenty=20 twohundred=200 million=1e6; integers are themselves).         *)
+(* twenty=20 twohundred=200 million=1e6; nan = float("nan"), which lies in *)
+(* no documented interval; integers are themselves).                       *)
 (*                                                                         *)
 (* Expected(kind, c): "ok" or "reject" per the documented domains.         *)
 (* The contract: every route (keyword arguments with a problem instance,   *)
@@ -18,15 +19,15 @@ EXTENDS Integers, Sequences, FiniteSets, TLC
 
 Kinds == {"VI", "PI", "RVI", "PVI", "SAVI"}
 Routes == {"kwargs", "config", "yaml", "reuse"}   \* reuse: one configuration object edited in place between two solvers
-GammaLevels == {"neg", "zero", "mid", "one", "above", "int_zero", "int_one"}   \* int_*: passed as Python ints
-EpsLevels == {"neg", "zero", "tiny", "small", "half", "two", "twenty", "twohundred", "million", "int_one", "int_hundred"}
+GammaLevels == {"neg", "zero", "mid", "one", "above", "int_zero", "int_one", "nan"}   \* int_*: passed as Python ints
+EpsLevels == {"neg", "zero", "tiny", "small", "half", "two", "twenty", "twohundred", "million", "int_one", "int_hundred", "nan"}
 TestLevels == {"span", "max_diff", "bogus"}
 IssueLevels == {"fifo", "lifo", "FIFO", "random"}
-PLevels == {"neg", "zero", "tenth", "mid", "one", "above"}   \* tenth = 0.1: not representable exactly in binary
+PLevels == {"neg", "zero", "tenth", "mid", "one", "above", "nan"}   \* tenth = 0.1: not representable exactly in binary
 
 GammaInUnit(g) == g \in {"zero", "mid", "one", "int_zero", "int_one"}
 GammaIsOne(g) == g \in {"one", "int_one"}
-EpsPositive(e) == e \notin {"neg", "zero"}
+EpsPositive(e) == e \notin {"neg", "zero", "nan"}      \* not-a-number is in no documented domain
 PInUnit(p) == p \in {"zero", "tenth", "mid", "one"}
 
 (* documented domains *)
